@@ -33,6 +33,7 @@ import (
 type State map[string]interface{}
 type Case struct {
 	Filter bool    `json:"filter"`
+	Const  bool    `json:"const"` // the filter selects a field that never changes: every modification takes the "projection unchanged" path
 	Steps  []State `json:"steps"`
 }
 type Result struct {
@@ -48,7 +49,7 @@ var gvr = schema.GroupVersionResource{Group: "", Version: "v1", Resource: "confi
 
 func obj(ns, name, v string) *unstructured.Unstructured {
 	return &unstructured.Unstructured{Object: map[string]interface{}{"apiVersion": "v1", "kind": "ConfigMap",
-		"metadata": map[string]interface{}{"name": name, "namespace": ns}, "data": map[string]interface{}{"v": v}}}
+		"metadata": map[string]interface{}{"name": name, "namespace": ns}, "data": map[string]interface{}{"v": v, "k": "c"}}}
 }
 
 type world struct {
@@ -57,6 +58,7 @@ type world struct {
 	cancel context.CancelFunc
 	cfg    *kem.MonitorConfig
 	filter bool
+	constF bool
 	ms     *metricstorage.MetricStorage
 	// keys that the preload listed and that were deleted before the informers started
 	preloaded map[string]bool
@@ -86,6 +88,9 @@ func (w *world) newManager() {
 	cfg.WithNamespaceSelector(&kemtypes.NamespaceSelector{NameSelector: &kemtypes.NameSelector{MatchNames: []string{"n1", "n2"}}})
 	if w.filter {
 		cfg.JqFilter = `{"v": .data.v}`
+		if w.constF {
+			cfg.JqFilter = `{"k": .data.k}`
+		}
 	}
 	w.cfg = cfg
 	w.preloaded, w.ghosts, w.started = map[string]bool{}, map[string]bool{}, false
@@ -124,7 +129,11 @@ func (w *world) snapshot() []snapItem {
 		d, _, _ := unstructured.NestedString(o.Object.Object, "data", "v")
 		fr := ""
 		if m, ok := o.FilterResult.(map[string]interface{}); ok {
-			fr = fmt.Sprint(m["v"])
+			if _, has := m["k"]; has {
+				fr = "k=" + fmt.Sprint(m["k"])
+			} else {
+				fr = fmt.Sprint(m["v"])
+			}
 		}
 		out = append(out, snapItem{o.Object.GetNamespace() + "/" + o.Object.GetName(), d, fr})
 	}
@@ -190,7 +199,7 @@ func specCache(st State) map[string]string {
 
 func replayCase(n int, c Case, ms *metricstorage.MetricStorage) Result {
 	res := Result{Case: n, OK: true}
-	w := &world{fc: fake.NewFakeCluster(fake.ClusterVersionV121), filter: c.Filter, ms: ms}
+	w := &world{fc: fake.NewFakeCluster(fake.ClusterVersionV121), filter: c.Filter, constF: c.Const, ms: ms}
 	w.newManager()
 	defer func() {
 		if w.cancel != nil {
@@ -285,7 +294,11 @@ func replayCase(n int, c Case, ms *metricstorage.MetricStorage) Result {
 			}
 			got[s.key] = s.val
 			keys = append(keys, s.key)
-			if c.Filter && s.fr != s.val {
+			if c.Filter && c.Const {
+				if s.fr != "k=c" {
+					return bad(i, "C02/filter-not-applied", fmt.Sprintf("object %s: filterResult %q, the filter selects the constant field", s.key, s.fr))
+				}
+			} else if c.Filter && s.fr != s.val {
 				return bad(i, "C02/filter-not-applied", fmt.Sprintf("object %s: filterResult %q, object value %q", s.key, s.fr, s.val))
 			}
 		}
@@ -341,7 +354,15 @@ func splitKey(k string) (string, string) {
 func main() {
 	in := flag.String("in", "", "")
 	out := flag.String("out", "", "")
+	mode := flag.String("mode", "history", "history | keys")
 	flag.Parse()
+	if *mode == "keys" {
+		if err := cmdKeys(*in, *out); err != nil {
+			fmt.Fprintln(os.Stderr, "snap keys:", err)
+			os.Exit(2)
+		}
+		return
+	}
 	f, err := os.Open(*in)
 	if err != nil {
 		fmt.Fprintln(os.Stderr, err)
